@@ -54,172 +54,131 @@ def run(ctx):
     m = ctx.repo.module(REAL)
     Q = f"{REAL}:{STR}"
 
-    # ------------------------------------------------------------------ report implies removal
-    cls = classes.get(REAL, STR)
-    n_calls = 0
-    for mname, f in cls.methods.items():
-        for c in walk_shallow(f, include_self=False):
-            if isinstance(c, ast.Call) and dotted(c.func) == "self.on_test":
-                n_calls += 1
-                arg = c.args[0] if c.args else None
-                src = arg
-                # follow `case.got_timestamp(None)` and locals bound in the same block
-                if isinstance(src, ast.Call) and isinstance(src.func, ast.Attribute) and src.func.attr in ("got_timestamp", "set"):
-                    src = src.func.value
-                if isinstance(src, ast.Name):
-                    for n in walk_shallow(f, include_self=False):
-                        if isinstance(n, ast.Assign) and (dotted(n.targets[0]) == src.id or (
-                                isinstance(n.targets[0], (ast.Tuple, ast.List)) and any(dotted(e) == src.id for e in n.targets[0].elts))):
-                            src = n.value
-                            break
-                txt = norm(src)
-                ok = ("self._inprogress.pop(" in txt or "self._inprogress.popitem()" in txt) and "self._inprogress[" not in txt
-                ctx.check("R-REPORT-REMOVES", f"{STR}.{mname}: on_test({norm(arg)[:40]})", c, ok,
-                          f"the record handed to on_test comes from `{txt[:60]}`, which leaves it in the in-progress table: it will be reported again at stopTestRun (or on the next final status)",
-                          construct=f"{Q}.{mname}::on_test-source")
-    ctx.floor("R-REPORT-REMOVES", 2, "on_test call sites")
-    status = own_method(ctx, REAL, STR, "status")
-    g = cfg_of(ctx, status)
-    lv = live_nodes(g)
-    rep = nodes_calling(g, lambda c: dotted(c.func) == "self.on_test", lv)
-    guards = [n.id for n in g.nodes if n.id in lv and n.kind == "test" and norm(n.ast.test) == "test_status not in INTERIM_STATES"]
-    ok = len(rep) == 1 and len(guards) == 1 and any(b == rep[0] or rep[0] in g.reach([b]) for b, k in g.succ[guards[0]] if k == "true") and not any(
-        rep[0] in g.reach([b]) for b, k in g.succ[guards[0]] if k == "false")
-    ctx.check("R-REPORT-REMOVES", "a record is reported from status() exactly when the status is final", status, ok,
-              "the report in status() is not guarded by `test_status not in INTERIM_STATES`", construct=f"{Q}.status::final-guard")
+    # ------------------------------------------------------------------ the consumer core, on event histories
+    # One test key is followed through short histories on the abstract record model (rules/recordmodel.py): what is
+    # reported, when, with which fields, and whether the key is gone afterwards -- whatever helpers the code uses.
+    from . import recordmodel as rm
+    from ..absint import NONE as A_NONE
+    E = rm.event
+    T, R = ("sym", "T"), ("sym", "R")
+    t1, t2, t3 = ("sym", "t1"), ("sym", "t2"), ("sym", "t3")
+    T1, T3, NOTAGS = ("tags", "T1"), ("tags", "T3"), ("tags", "empty")
+    f_, g_ = ("const", "f"), ("const", "g")
+    b1, b2, c1, nothing = ("bytes", "b1"), ("bytes", "b2"), ("bytes", "c1"), ("bytes", "")
+
+    def files(*entries):
+        return ("files", tuple((n_, ("ctype", m_), tuple(ch)) for n_, m_, ch in entries))
+
+    def report(status, tags, first, last, fl=files()):
+        return (T, ("const", status), tags, ("tuple", first, last), fl)
+
+    HISTORIES = [
+        ("R-RECORD-UPDATE", "inprogress+tags+chunk; chunk with another mime type; final with new tags",
+         [E(status=("const", "inprogress"), tags=T1, file_name=f_, file_bytes=b1, mime=("const", "m1"), ts=t1),
+          E(file_name=f_, file_bytes=b2, mime=("const", "m2"), ts=t2), E(status=("const", "success"), tags=T3, ts=t3)],
+         [report("success", T3, t1, t3, files((f_, ("const", "m1"), (b1, b2))))],
+         "last status, latest tags, (first, reporting) timestamps, chunks in arrival order under the first content type"),
+        ("R-REPORT-REMOVES", "a test left in progress is reported at stopTestRun with no end time",
+         [E(status=("const", "inprogress"), tags=T1, ts=t1)], [report("inprogress", T1, t1, A_NONE)],
+         "an incomplete test is reported exactly once, when the run stops, with (first timestamp, None)"),
+        ("R-IGNORE-NO-ID", "an event without test id", [E(test_id=A_NONE, status=("const", "success"), ts=t1)], [],
+         "events without a test id create no record and report nothing"),
+        ("R-REPORT-REMOVES", "a single final event", [E(status=("const", "fail"), ts=t1)], [report("fail", NOTAGS, t1, t1)],
+         "a test whose first event is final is reported at once, with fresh empty tags and details"),
+        ("R-RECORD-UPDATE", "file-only events", [E(file_name=f_, file_bytes=b1, mime=("const", "m1"), ts=t1)], [report("unknown", NOTAGS, t1, A_NONE, files((f_, ("const", "m1"), (b1,))))],
+         "a test that only ever sent attachments is reported as 'unknown' when the run stops"),
+        ("R-RECORD-UPDATE", "an empty chunk", [E(status=("const", "inprogress"), file_name=f_, file_bytes=nothing, mime=("const", "m1"), ts=t1), E(status=("const", "success"), ts=t2)],
+         [report("success", NOTAGS, t1, t2)], "empty chunks add nothing"),
+        ("R-RECORD-UPDATE", "final event without tags after tagged events", [E(status=("const", "inprogress"), tags=T1, ts=t1), E(status=("const", "success"), ts=t2)],
+         [report("success", T1, t1, t2)], "an event that carries no tags keeps the latest tags seen"),
+        ("R-RECORD-UPDATE", "final event with an explicitly empty tag set", [E(status=("const", "inprogress"), tags=T1, ts=t1), E(status=("const", "success"), tags=NOTAGS, ts=t2)],
+         [report("success", NOTAGS, t1, t2)], "an explicit empty tag set replaces earlier tags (only the most recent tags are reported)"),
+        ("R-RECORD-UPDATE", "two attachments", [E(status=("const", "inprogress"), file_name=f_, file_bytes=b1, mime=("const", "m1"), ts=t1),
+                                               E(file_name=g_, file_bytes=c1, mime=("const", "m2"), ts=t2), E(status=("const", "xfail"), ts=t3)],
+         [report("xfail", NOTAGS, t1, t3, files((f_, ("const", "m1"), (b1,)), (g_, ("const", "m2"), (c1,))))], "each file name gets its own attachment with its own content type"),
+        ("R-RECORD-UPDATE", "final event without timestamp", [E(status=("const", "inprogress"), ts=t1), E(status=("const", "success"))],
+         [report("success", NOTAGS, t1, A_NONE)], "the end time is that of the reporting event, also when it carries none"),
+        ("R-REPORT-REMOVES", "interim status None then final", [E(ts=t1), E(status=("const", "skip"), ts=t2)], [report("skip", NOTAGS, t1, t2)],
+         "events without status are interim: nothing is reported until a final status arrives"),
+    ]
+    cons_status = own_method(ctx, REAL, STR, "status")
+    for rule, name, hist, want, what in HISTORIES:
+        states, lost = rm.run_history(ctx, hist)
+        problems = set()
+        if not states:
+            problems.add("no path of the consumer returns normally on this history")
+        for s_ in states:
+            reps = s_.get("ev.reports", ())
+            got = [r_[1:6] for r_ in reps]
+            if s_.get("ev.problem", None):
+                problems.add(s_.get("ev.problem"))
+            if got != want:
+                problems.add(f"reported {[(g[1], g[2], g[3], g[4]) for g in got]}; expected {[(w[1], w[2], w[3], w[4]) for w in want]}")
+            if any(r_[6] != "record" for r_ in reps):
+                problems.add("on_test does not receive the record")
+            if any(r_[7] for r_ in reps):
+                problems.add("a record is reported while its key is still in the in-progress table (it would be reported again)")
+            if s_.get("tbl", False):
+                problems.add("the key is still in the in-progress table after stopTestRun")
+            if s_.get("ev.replaced_file", 0):
+                problems.add("an attachment already received is replaced by a new content object")
+        ctx.check(rule, f"history: {name}", cons_status, not problems, f"{what}: " + "; ".join(sorted(problems)), examined=len(states),
+                  construct=f"{Q}::history {name}")
+    # several tests in progress when the run stops: all of them are reported, none is left behind
+    states, _ = rm.run_history(ctx, [E(status=("const", "inprogress"), ts=t1)], others=True)
+    problems = set()
+    for s_ in states:
+        if s_.get("tbl", False) or s_.get("others", False):
+            problems.add("tests are still in the in-progress table after stopTestRun: they are never reported")
+        if len(s_.get("ev.reports", ())) != 1 or s_.get("ev.other_reports", 0) < 1:
+            problems.add(f"{len(s_.get('ev.reports', ()))} report(s) for the followed test and {s_.get('ev.other_reports', 0)} for the others")
+    ctx.check("R-REPORT-REMOVES", "history: several tests in progress at stopTestRun are all reported and removed", cons_status, bool(states) and not problems,
+              "; ".join(sorted(problems)) or "no path returns", examined=len(states), construct=f"{Q}::history drain-all")
+    # the table key distinguishes route codes
+    states, _ = rm.run_history(ctx, [E(status=("const", "inprogress"), ts=t1)], stop=False)
+    keys = {s_.get("ev.key", None) for s_ in states}
+    ctx.check("R-IGNORE-NO-ID", "records are keyed by (test_id, route_code)", cons_status, keys == {("tuple", T, R)},
+              f"the in-progress table is keyed by {sorted(map(repr, keys))}: tests with the same id arriving under different route codes would be merged", construct=f"{Q}::key")
     interim = module_const_set(m, "INTERIM_STATES")
-    ctx.check("R-REPORT-REMOVES", "INTERIM_STATES = {None, 'inprogress'}", m.tree, interim == frozenset([None, "inprogress"]), f"INTERIM_STATES is {interim}", construct=f"{REAL}:INTERIM_STATES")
-    stop = own_method(ctx, REAL, STR, "stopTestRun")
-    loops = [l for l in walk_shallow(stop, include_self=False) if isinstance(l, ast.While) and dotted(l.test) == "self._inprogress"]
-    ok = len(loops) == 1 and any(isinstance(c, ast.Call) and dotted(c.func) == "self._inprogress.popitem" for c in walk_shallow(loops[0])) and not any(
-        isinstance(x, (ast.Break, ast.Return, ast.Continue)) for x in walk_shallow(loops[0])) and any(isinstance(c, ast.Call) and dotted(c.func) == "self.on_test" for c in walk_shallow(loops[0]))
-    ctx.check("R-REPORT-REMOVES", "stopTestRun drains the in-progress table, reporting every remaining record", stop, ok,
-              "stopTestRun is not `while self._inprogress: report(self._inprogress.popitem())`: incomplete tests would be lost", construct=f"{Q}.stopTestRun::drain")
-    ok = any(isinstance(c, ast.Call) and isinstance(c.func, ast.Attribute) and c.func.attr == "got_timestamp" and c.args and isinstance(c.args[0], ast.Constant) and c.args[0].value is None
-             for l in loops for c in walk_shallow(l))
-    ctx.check("R-REPORT-REMOVES", "incomplete records are reported with no end timestamp", stop, ok, "hung tests are not marked with a None end timestamp", construct=f"{Q}.stopTestRun::no-end-time")
-    start = own_method(ctx, REAL, STR, "startTestRun")
-    ok = any(isinstance(n, ast.Assign) and dotted(n.targets[0]) == "self._inprogress" and isinstance(n.value, ast.Dict) and not n.value.keys for n in walk_shallow(start, include_self=False))
-    ctx.check("R-REPORT-REMOVES", "startTestRun starts with an empty table", start, ok, "the in-progress table is not reset at startTestRun", construct=f"{Q}.startTestRun::reset")
-
-    # ------------------------------------------------------------------ ignore events without id
-    ek = own_method(ctx, REAL, STR, "_ensure_key")
-    g2 = cfg_of(ctx, ek)
-    lv2 = live_nodes(g2)
-    none_guard = [n.id for n in g2.nodes if n.id in lv2 and n.kind == "test" and norm(n.ast.test) == "test_id is None"]
-    touches = [n.id for n in g2.nodes if n.id in lv2 and n.kind in ("stmt", "test") and "self._inprogress" in norm(n.ast if n.kind == "stmt" else n.ast.test)]
-    ok = len(none_guard) == 1 and bool(touches)
-    if ok:
-        tsucc = [b for b, k in g2.succ[none_guard[0]] if k == "true"]
-        reach_true = g2.reach(tsucc)
-        ok = not (set(reach_true) & set(touches)) and all(g2.dominated_by(t, set(none_guard)) for t in touches)
-        rets = [g2.nodes[i] for i in reach_true if g2.nodes[i].kind == "return"]
-        ok = ok and all(r.ast.value is None or (isinstance(r.ast.value, ast.Constant) and not r.ast.value.value) for r in rets)
-    ctx.check("R-IGNORE-NO-ID", "_ensure_key: test_id None -> falsy key, table untouched", ek, ok,
-              "an event without test id can create or touch a record", construct=f"{Q}._ensure_key::none")
-    keys = [n for n in walk_shallow(ek, include_self=False) if isinstance(n, ast.Assign) and dotted(n.targets[0]) == "key"]
-    ok = len(keys) == 1 and isinstance(keys[0].value, ast.Tuple) and [dotted(e) for e in keys[0].value.elts] == ["test_id", "route_code"]
-    ctx.check("R-IGNORE-NO-ID", "records are keyed by (test_id, route_code)", ek, ok, "the record key is not the pair (test_id, route_code): the same id on two routes would be merged",
-              construct=f"{Q}._ensure_key::key")
-    creates = [c for c in walk_shallow(ek, include_self=False) if isinstance(c, ast.Call) and dotted(c.func) == "_TestRecord.create"]
-    ok = len(creates) == 1 and [dotted(a) for a in creates[0].args] == ["test_id", "timestamp"] and any(
-        isinstance(n, ast.If) and norm(n.test) == "key not in self._inprogress" and any(creates[0] in list(walk_shallow(s)) for s in n.body) for n in walk_shallow(ek, include_self=False))
-    ctx.check("R-IGNORE-NO-ID", "a record is created only for a key not yet in progress, with the first timestamp", ek, ok,
-              "records are re-created for keys already in progress (state lost) or without the first timestamp", construct=f"{Q}._ensure_key::create")
-    kn = nodes_calling(g, lambda c: dotted(c.func) == "self._ensure_key", lv)
-    early = [n.id for n in g.nodes if n.id in lv and n.kind == "test" and norm(n.ast.test) == "not key"]
-    table_uses = [n.id for n in g.nodes if n.id in lv and n.kind in ("stmt", "test") and "self._inprogress" in norm(n.ast if n.kind == "stmt" else n.ast.test)]
-    ok = len(kn) == 1 and len(early) == 1 and all(g.dominated_by(t, set(early)) for t in table_uses)
-    if ok:
-        tsucc = [b for b, k in g.succ[early[0]] if k == "true"]
-        ok = not (set(g.reach(tsucc)) & set(table_uses))
-    ctx.check("R-IGNORE-NO-ID", "status() returns before touching the table when there is no key", status, ok,
-              "status() uses the in-progress table for an event without test id", construct=f"{Q}.status::early-return")
-    kc = [c for nid in kn for c in node_calls(g.nodes[nid]) if dotted(c.func) == "self._ensure_key"]
-    ok = bool(kc) and [dotted(a) for a in kc[0].args] == ["test_id", "route_code", "timestamp"]
-    ctx.check("R-IGNORE-NO-ID", "status() derives the key from the event's test_id and route_code", status, ok, "wrong key arguments", construct=f"{Q}.status::key-args")
-
-    # ------------------------------------------------------------------ record update
-    uc = own_method(ctx, REAL, STR, "_update_case")
-    def guards(node):
-        """Conditions (normalised conjunct texts) that must hold for node to execute."""
-        out = set()
-        child = node
-        p = getattr(node, "_parent", None)
-        while p is not None and p is not uc:
-            if isinstance(p, ast.If) and any(child is x for x in p.body):
-                t = p.test
-                for v in (t.values if isinstance(t, ast.BoolOp) and isinstance(t.op, ast.And) else [t]):
-                    out.add(norm(v))
-            elif isinstance(p, ast.If):
-                out.add("<else>")
-            child = p
-            p = getattr(p, "_parent", None)
-        return out
-
-    calls = [c for c in walk_shallow(uc, include_self=False) if isinstance(c, ast.Call) and isinstance(c.func, ast.Attribute)]
-    set_status = [c for c in calls if c.func.attr == "set" and dotted(kw_value(c, "status")) == "test_status"]
-    got_ts = [c for c in calls if c.func.attr == "got_timestamp" and [dotted(a) for a in c.args] == ["timestamp"]]
-    got_file = [c for c in calls if c.func.attr == "got_file" and [dotted(a) for a in c.args] == ["file_name", "file_bytes", "mime_type"]]
-    set_tags = [c for c in calls if c.func.attr == "set" and ((len(c.args) == 2 and str_const(c.args[0]) == "tags" and dotted(c.args[1]) == "test_tags") or dotted(kw_value(c, "tags")) == "test_tags")]
-    ctx.check("R-RECORD-UPDATE", "_update_case: status replaced iff the event carries one (last status wins)", uc,
-              len(set_status) == 1 and guards(set_status[0]) == {"test_status is not None"},
-              "the record's status is not set exactly when test_status is not None", construct=f"{Q}._update_case::status")
-    ctx.check("R-RECORD-UPDATE", "_update_case: timestamp of every event is recorded", uc, len(got_ts) == 1 and not guards(got_ts[0]),
-              "got_timestamp(timestamp) is not called unconditionally", construct=f"{Q}._update_case::timestamp")
-    ctx.check("R-RECORD-UPDATE", "_update_case: non-empty file chunks are added to the named attachment", uc,
-              len(got_file) == 1 and guards(got_file[0]) == {"file_name is not None", "file_bytes"},
-              f"got_file is guarded by {sorted(guards(got_file[0])) if got_file else None} (must be: file_name is not None and file_bytes)", construct=f"{Q}._update_case::file")
-    ctx.check("R-RECORD-UPDATE", "_update_case: tags replaced iff the event carries tags (latest tags win)", uc,
-              len(set_tags) == 1 and guards(set_tags[0]) == {"test_tags is not None"},
-              "the record's tags are not set exactly when test_tags is not None", construct=f"{Q}._update_case::tags")
-    rec_var = uc.args.args[1].arg
-    chain_ok = all(isinstance(getattr(c, "_parent", None), ast.Assign) and dotted(c._parent.targets[0]) == rec_var and dotted(c.func.value) == rec_var for c in set_status + got_ts + got_file + set_tags)
-    rets = [r for r in walk_shallow(uc, include_self=False) if isinstance(r, ast.Return)]
-    ctx.check("R-RECORD-UPDATE", "_update_case threads one record through all updates and returns it", uc, chain_ok and len(rets) == 1 and dotted(rets[0].value) == rec_var,
-              "an update is applied to a different object or its result is discarded", construct=f"{Q}._update_case::thread")
-    upd = [c for c in walk_shallow(status, include_self=False) if isinstance(c, ast.Call) and dotted(c.func) == "self._update_case"]
-    ok = len(upd) == 1 and [norm(a) for a in upd[0].args] == ["self._inprogress[key]", "test_status", "test_tags", "file_name", "file_bytes", "mime_type", "timestamp"] and isinstance(
-        upd[0]._parent, ast.Assign) and norm(upd[0]._parent.targets[0]) == "self._inprogress[key]"
-    ctx.check("R-RECORD-UPDATE", "status() updates the record of its key with all event fields and stores it back", status, ok, "the record update call changed", construct=f"{Q}.status::update")
-    rec = classes.get(REAL, "_TestRecord")
-    gf = rec.own_method("got_file")
-    appends = [c for c in walk_shallow(gf, include_self=False) if isinstance(c, ast.Call) and isinstance(c.func, ast.Attribute) and c.func.attr == "append"]
-    ok = len(appends) == 1 and [dotted(a) for a in appends[0].args] == ["file_bytes"] and "iter_bytes()" in norm(appends[0].func.value) and not any(
-        isinstance(p, (ast.If, ast.For)) for p in _ancestors(appends[0], gf))
-    ctx.check("R-RECORD-UPDATE", "got_file appends every chunk to the file's list (arrival order)", gf, ok, "chunks are not appended unconditionally in arrival order", construct=f"{REAL}:_TestRecord.got_file::append")
-    ok = any(isinstance(n, ast.If) and norm(n.test) == "file_name in self.details" for n in walk_shallow(gf, include_self=False)) and len(
-        [c for c in ast.walk(gf) if isinstance(c, ast.Call) and dotted(c.func) == "Content"]) == 1
-    ctx.check("R-RECORD-UPDATE", "one content object per file name, created on the first chunk", gf, ok, "a new content object can replace the chunks already received", construct=f"{REAL}:_TestRecord.got_file::once")
-    gt = rec.own_method("got_timestamp")
-    ok = any(isinstance(c, ast.Call) and dotted(c.func) == "self.set" and norm(kw_value(c, "timestamps")) == "(self.timestamps[0], timestamp)" for c in ast.walk(gt))
-    ctx.check("R-RECORD-UPDATE", "got_timestamp keeps the first timestamp and replaces the last", gt, ok, "timestamps are not (first, latest)", construct=f"{REAL}:_TestRecord.got_timestamp::pair")
-    cr = rec.own_method("create")
-    kws = {k.arg: norm(k.value) for c in ast.walk(cr) if isinstance(c, ast.Call) and dotted(c.func) == "cls" for k in c.keywords}
-    ok = kws == {"id": "test_id", "tags": "set()", "details": "{}", "status": "'unknown'", "timestamps": "(timestamp, None)"}
-    ctx.check("R-RECORD-UPDATE", "a new record starts as unknown with fresh tags/details and the first timestamp", cr, ok, f"_TestRecord.create builds {kws}", construct=f"{REAL}:_TestRecord.create::fields")
-    td = rec.own_method("to_dict")
-    d = [n for n in ast.walk(td) if isinstance(n, ast.Dict)]
-    ok = len(d) == 1 and {str_const(k): norm(v) for k, v in zip(d[0].keys, d[0].values)} == {"id": "self.id", "tags": "self.tags", "details": "self.details", "status": "self.status", "timestamps": "list(self.timestamps)"}
-    ctx.check("R-RECORD-UPDATE", "to_dict exposes id, tags, details, status, timestamps", td, ok, "test dict fields changed", construct=f"{REAL}:_TestRecord.to_dict::fields")
+    ctx.check("R-REPORT-REMOVES", "INTERIM_STATES = {None, 'inprogress'}", None, interim == frozenset([None, "inprogress"]), f"INTERIM_STATES is {interim}", construct=f"{REAL}::INTERIM_STATES")
+    rec_cls = classes.get(REAL, "_TestRecord")
+    td = rec_cls.own_method("to_dict")
+    keys_ = set()
+    if td is not None:
+        for n in ast.walk(td):
+            if isinstance(n, ast.Dict):
+                keys_ |= {k.value for k in n.keys if isinstance(k, ast.Constant)}
+    ctx.check("R-RECORD-UPDATE", "to_dict exposes id, tags, details, status, timestamps", td if td is not None else rec_cls.node, keys_ >= {"id", "tags", "details", "status", "timestamps"},
+              f"to_dict keys {sorted(keys_)}", construct=f"{REAL}:_TestRecord.to_dict::keys")
 
     # ------------------------------------------------------------------ summary count
     gt_ = own_method(ctx, REAL, "StreamSummary", "_gather_test")
-    g3 = cfg_of(ctx, gt_)
-    lv3 = live_nodes(g3)
-    ex = [n.id for n in g3.nodes if n.id in lv3 and n.kind == "test" and norm(n.ast.test).replace('"', "'") == "test_record.status == 'exists'"]
-    inc = [n.id for n in g3.nodes if n.id in lv3 and n.kind == "stmt" and isinstance(n.ast, ast.AugAssign) and dotted(n.ast.target) == "self.testsRun"]
-    ok = len(ex) == 1 and len(inc) == 1 and isinstance(g3.nodes[inc[0]].ast.op, ast.Add) and isinstance(g3.nodes[inc[0]].ast.value, ast.Constant) and g3.nodes[inc[0]].ast.value.value == 1
-    if ok:
-        tsucc = [b for b, k in g3.succ[ex[0]] if k == "true"]
-        fsucc = [b for b, k in g3.succ[ex[0]] if k == "false"]
-        ok = inc[0] not in g3.reach(tsucc) and g3.escape_path(fsucc, set(inc), targets=[g3.exit_return]) is None and not any(
-            g3.nodes[i].kind not in ("return", "exit_return") for i in g3.reach(tsucc))
-    ctx.check("R-SUMMARY-COUNT", "'exists' records return before the single testsRun += 1; all others are counted once", gt_, ok,
-              "testsRun is not incremented exactly once for every record whose status is not 'exists'", construct=f"{REAL}:StreamSummary._gather_test::count")
-    disp = [c for c in walk_shallow(gt_, include_self=False) if isinstance(c, ast.Call) and isinstance(c.func, ast.Subscript) and dotted(c.func.value) == "self._handle_status"]
-    ok = len(disp) == 1 and norm(disp[0].func.slice) == "test_record.status" and not any(isinstance(p, (ast.If, ast.For, ast.Try)) for p in _ancestors(disp[0], gt_))
-    ctx.check("R-SUMMARY-COUNT", "exactly one bucket handler, chosen by the record's status", gt_, ok, "the bucket handler is not self._handle_status[test_record.status](case), once", construct=f"{REAL}:StreamSummary._gather_test::dispatch")
+    from .. import effects
+    ss_cls = classes.get(REAL, "StreamSummary")
+    rec_param = gt_.args.args[1].arg
+    count_problems, disp_problems = [], []
+    for status in ("exists", "success", "skip", "fail", "xfail", "uxsuccess", "unknown", "inprogress"):
+        dom_ = effects.EffectDomain(classes, attrs={f"{rec_param}.status": ("const", status)}, track_stores={"self.testsRun"},
+                                    results={f"{rec_param}.to_test_case": [("case",)]})
+        for r in effects.run(ctx, dom_, gt_, ss_cls, {rec_param: ("arg", "record")}):
+            if r.kind != "val":
+                count_problems.append(f"status {status!r}: raises {r.value!r}")
+                continue
+            stores = [e for e in effects.calls(r) if e[0] == "store:self.testsRun"]
+            disp = [e for e in effects.calls(r) if e[0] == "dispatch:self._handle_status"]
+            if len(stores) != (0 if status == "exists" else 1):
+                count_problems.append(f"status {status!r}: testsRun is written {len(stores)} time(s)")
+            if status == "exists":
+                if disp:
+                    disp_problems.append("an 'exists' record is handed to a bucket handler")
+            elif len(disp) != 1 or disp[0][1][0] != ("const", status) or disp[0][1][1:] != (("case",),):
+                disp_problems.append(f"status {status!r}: bucket dispatches {[(e[1][0], e[1][1:]) for e in disp]} (expected one, keyed by the record's status, with the test case)")
+    incs = [n for n in ast.walk(gt_) if isinstance(n, ast.AugAssign) and dotted(n.target) == "self.testsRun"]
+    inc_ok = all(isinstance(n.op, ast.Add) and isinstance(n.value, ast.Constant) and n.value.value == 1 for n in incs) and bool(incs)
+    ctx.check("R-SUMMARY-COUNT", "'exists' records are not counted; every other record adds exactly one to testsRun", gt_, not count_problems and inc_ok,
+              "testsRun is not incremented exactly once for every record whose status is not 'exists': " + "; ".join(sorted(set(count_problems))), construct=f"{REAL}:StreamSummary._gather_test::count")
+    ctx.check("R-SUMMARY-COUNT", "exactly one bucket handler, chosen by the record's status", gt_, not disp_problems,
+              "; ".join(sorted(set(disp_problems))), construct=f"{REAL}:StreamSummary._gather_test::dispatch")
     hs, hs_node = handle_status_table(ctx)
     ss = classes.get(REAL, "StreamSummary")
     bucket = {"_fail": {"errors"}, "_incomplete": {"errors"}, "_skip": {"skipped"}, "_xfail": {"expectedFailures"}, "_uxsuccess": {"unexpectedSuccesses"}, "_success": set(), "_exists": set()}
